@@ -17,11 +17,13 @@
 (*   snf   sync only: NAPTR records exist but none is usable -> empty result instead of the SRV fallback            as-is O2  *)
 (*   a4    async only: AAAA is asked only when there is no A (policy IPv4First asks for both)                       as-is O3  *)
 (*   afe   async only: the A/AAAA fallback returns its targets even when the domain has no address at all           as-is O4  *)
+(*   ca4   a result assembled from the cache (api "cached": the second synchronous call, fromCache = true) carries    as-is O5  *)
+(*         AAAA only for hosts without A                                                                                      *)
 (*   ord   slip: every NAPTR order is used            np    slip: preferences are not applied to NAPTR records                *)
 (*   keep  slip: targets without addresses are kept   desc  slip: sorted descending                                           *)
 EXTENDS Naturals, Sequences, FiniteSets
 
-NoFlags == [us |-> FALSE, snf |-> FALSE, a4 |-> FALSE, afe |-> FALSE, ord |-> FALSE, np |-> FALSE, keep |-> FALSE, desc |-> FALSE]
+NoFlags == [us |-> FALSE, snf |-> FALSE, a4 |-> FALSE, afe |-> FALSE, ca4 |-> FALSE, ord |-> FALSE, np |-> FALSE, keep |-> FALSE, desc |-> FALSE]
 Range(s) == {s[i] : i \in 1..Len(s)}
 Has(z, n, t) == \E i \in 1..Len(z) : z[i].n = n /\ z[i].t = t
 Lookup(z, n, t) == IF Has(z, n, t) THEN z[CHOOSE i \in 1..Len(z) : z[i].n = n /\ z[i].t = t]
@@ -42,7 +44,7 @@ Addrs(e) == IF Success(e) THEN [i \in 1..Len(e.recs) |-> e.recs[i].addr] ELSE <<
 Addresses(z, h, policy, api, F) ==
   LET v4 == Addrs(Lookup(z, h, "A"))
       v6 == Addrs(Lookup(z, h, "AAAA")) IN
-  IF api = "async" /\ F.a4 THEN (IF v4 # <<>> THEN v4 ELSE v6)
+  IF (api = "async" /\ F.a4) \/ (api = "cached" /\ F.ca4) THEN (IF v4 # <<>> THEN v4 ELSE v6)
   ELSE CASE policy = "IPv4Only" -> v4 [] policy = "IPv6Only" -> v6 [] policy = "IPv6First" -> v6 \o v4 [] OTHER -> v4 \o v6
 
 MinOrder(recs) == CHOOSE o \in {r.order : r \in Range(recs)} : \A r \in Range(recs) : o <= r.order
@@ -74,7 +76,7 @@ Eval(z, d, prefs, policy, api, F) ==
   LET nap == Lookup(z, d, "NAPTR")
       use == IF Success(nap) THEN Usable(nap.recs, prefs, F) ELSE {} IN
   IF use # {} THEN NaptrTargets(z, use, policy, api, F)
-  ELSE IF api = "sync" /\ F.snf /\ Success(nap) THEN {}
+  ELSE IF api \in {"sync", "cached"} /\ F.snf /\ Success(nap) THEN {}
   ELSE DirectTargets(z, d, prefs, policy, api, F)
 \* the order the result must have: by NAPTR preference, then SRV priority (ties in any order)
 Before(a, b, F) == IF F.desc THEN (a.np > b.np \/ (a.np = b.np /\ a.prio >= b.prio)) ELSE (a.np < b.np \/ (a.np = b.np /\ a.prio <= b.prio))
